@@ -41,6 +41,32 @@ def run(ck, prog, tier, load):
         else:
             ck.ob("C18-a.value-list-effect", "%s|%s" % (owner.split("header::map::")[-1], m), False, b, bb, "unclassified operation %s on Value.inner in %s" % (m, owner))
     ck.anchor("C18-a", n, 5, "method calls on Value.inner")
+    # value lists that were moved out of the map (Drain / IntoIter / Removed) keep their order too
+    n_sv = 0
+    for b in prog.in_file("actix-http/src/header/map.rs"):
+        if "::tests::" in b.npath:
+            continue
+        for bb, t in b.calls(r"^smallvec::SmallVec::"):
+            if not t["args"]:
+                continue
+            a0 = t["args"][0]
+            pl = a0.get("copy") or a0.get("move")
+            ty = b.lty(pl[0]) if pl else ""
+            if "HeaderValue" not in ty and "HeaderValue" not in str(t["fn"].get("selfty", "")) + str(t["fn"].get("resself", "")):
+                continue
+            m = cname(t).split("::")[-1]
+            n_sv += 1
+            if m not in REORDER:
+                continue
+            if m == "remove":
+                k = b.op_expr(t["args"][1])
+                ok = k[:3] == ("const", None, 0)
+                ck.ob("C18-b.no-reorder", "%s|remove(%s)" % (b.npath.split("header::map::")[-1], k[2]), ok, b, bb, "SmallVec::remove on a header value list is order-preserving only at index 0 (got %s)" % short(k))
+            elif m in ("push",):
+                pass
+            else:
+                ck.ob("C18-b.no-reorder", "%s|%s" % (b.npath.split("header::map::")[-1], m), False, b, bb, "SmallVec::%s on a header value list does not preserve the insertion order of the remaining values" % m)
+    ck.anchor("C18-b", n_sv, 3, "SmallVec<HeaderValue> method calls in header/map.rs")
     # Value constructed only in Value::one
     for b in prog.bodies.values():
         if b.crate != "actix_http":
@@ -129,9 +155,34 @@ def run(ck, prog, tier, load):
 
     # ---- (e) from_drain ---------------------------------------------------------------------------
     fd = prog.one(r"^actix_http::header::map::HeaderMap::from_drain$")
-    clo = [c for c in prog.with_closures(fd) if c is not fd]
-    ok = any(any(True for _ in c.calls(r"Option.*::unwrap_or$")) and any(True for _ in c.calls(r"map::HeaderMap::append$")) for c in clo)
-    ck.ob("C18-e.from-drain-reuses-name", "HeaderMap::from_drain", ok, fd, None, "entries without a name (further values of the previous header) are appended under the previous name")
+    clo = [c for c in prog.with_closures(fd) if c is not fd and any(True for _ in c.calls(r"map::HeaderMap::append$"))]
+    ck.anchor("C18-e", len(clo), 1, "fold closure of from_drain")
+    for c in clo:
+        ok = False
+        det = ""
+        for bb, t in c.calls(r"map::HeaderMap::append$"):
+            # the key handed to append: strip the clone
+            key_local = None
+            kop = t["args"][1]
+            kpl = kop.get("move") or kop.get("copy")
+            if kpl:
+                for d in c.defs().get(kpl[0], []):
+                    if d[0] == "call" and rx(r"Clone>::clone$").search(cname(d[2])):
+                        key_local = base_local(c, d[2]["args"][0])
+                if key_local is None:
+                    key_local = base_local(c, kop)
+            # the name carried to the next iteration: second component of the returned tuple
+            carried = None
+            for d in c.defs().get(0, []):
+                if d[0] == "=" and d[3]["k"] == "agg" and d[3]["ak"] == "tuple" and len(d[3]["ops"]) == 2:
+                    carried = base_local(c, d[3]["ops"][1])
+            ok = key_local is not None and key_local == carried
+            # and that name falls back to the previous name (a path from the accumulator argument reaches it)
+            e = c.local_expr(key_local) if key_local is not None else None
+            uses_prev = e is not None and any(r[0] == "arg" and r[1] == 2 for x in deep_conds(c, e) for r in e_roots(x)) and any(r[0] == "arg" and r[1] == 3 for x in deep_conds(c, e) for r in e_roots(x))
+            ok = ok and uses_prev
+            det = "appended under local _%s, carried local _%s, derives from both the entry and the previous name: %s" % (key_local, carried, uses_prev)
+        ck.ob("C18-e.from-drain-reuses-name", "HeaderMap::from_drain", ok, c, None, "the name an entry is appended under is also the name carried to the next entry, and it falls back to the previous name (%s)" % det)
 
 
 def re_esc(s):
